@@ -18,11 +18,11 @@ Hypothesis float_nonempty : forall b, FOK b -> fmt_float b <> [].
 
 (* a value fits its FORMAT key (FORMAT has no Flag type); the haploid missing genotype before
    4.4 (text ".") is outside: it reads back as a missing value *)
-Definition sval_ok (lazy v44 : bool) (d : fdef) (v : value) : Prop :=
+Definition sval_ok (v44 : bool) (d : fdef) (v : value) : Prop :=
   match d, v with
   | FGt, VGenotype g => gt_ok g /\ write_genotype v44 g <> dot
   | FGt, _ => False
-  | FDef num ty, v => val_ok FOK CFormat lazy v /\ typed num ty v /\ v <> VFlag
+  | FDef num ty, v => val_ok FOK v /\ typed num ty v /\ v <> VFlag
   end.
 
 Definition norm_value (v44 : bool) (v : value) : value :=
@@ -35,7 +35,7 @@ Definition one_text (v44 : bool) (o : option value) : option (list N) :=
   match o with None => Some dot | Some v => write_value fmt_float CFormat v44 v end.
 
 Theorem sample_value_roundtrip : forall lazy v44 d o t,
-  match o with Some v => sval_ok lazy v44 d v | None => True end ->
+  match o with Some v => sval_ok v44 d v | None => True end ->
   one_text v44 o = Some t ->
   parse_sample_value prs_float lazy d t = Some (option_map (norm_value v44) o).
 Proof.
@@ -49,7 +49,7 @@ Proof.
     + rewrite (genotype_roundtrip_v44 g Hg). destruct lazy; reflexivity.
     + rewrite (genotype_roundtrip_pre44 g Hg). destruct lazy; reflexivity.
   - cbn [sval_ok] in Hok. destruct Hok as (Hv & Hty & Hnf).
-    rewrite (bytes_eqb_neq _ _ (value_not_dot fmt_float FOK float_not_dot CFormat lazy v44 v t Hv Hnf Hw)).
+    rewrite (bytes_eqb_neq _ _ (value_not_dot fmt_float FOK float_not_dot CFormat v44 v t Hv Hnf Hw)).
     rewrite (value_roundtrip fmt_float prs_float FOK float_rt float_chars float_not_dot float_nonempty
                CFormat lazy v44 num ty v t Hv Hty Hnf Hw).
     destruct v; try reflexivity. cbn in Hty. contradiction.
@@ -57,30 +57,30 @@ Qed.
 
 
 (* the values of one sample fit a prefix of the FORMAT keys *)
-Fixpoint fits (lazy v44 : bool) (ds : list fdef) (vs : list (option value)) : Prop :=
+Fixpoint fits (v44 : bool) (ds : list fdef) (vs : list (option value)) : Prop :=
   match vs, ds with
   | [], _ => True
   | o :: vs', d :: ds' =>
-      match o with Some v => sval_ok lazy v44 d v | None => True end /\ fits lazy v44 ds' vs'
+      match o with Some v => sval_ok v44 d v | None => True end /\ fits v44 ds' vs'
   | _ :: _, [] => False
   end.
 
-Lemma one_text_no_colon : forall lazy v44 d o t,
-  match o with Some v => sval_ok lazy v44 d v | None => True end ->
+Lemma one_text_no_colon : forall v44 d o t,
+  match o with Some v => sval_ok v44 d v | None => True end ->
   one_text v44 o = Some t -> ~ In 58 t.
 Proof.
-  intros lazy v44 d o t Hok Hw. destruct o as [v|]; cbn [one_text] in Hw.
+  intros v44 d o t Hok Hw. destruct o as [v|]; cbn [one_text] in Hw.
   2:{ inversion Hw. cbn. intros [H|[]]. discriminate. }
   destruct d as [|num ty].
   - destruct v; cbn [sval_ok] in Hok; try contradiction. cbn [write_value] in Hw. inversion Hw; subst t.
     intro Hin. apply write_genotype_chars in Hin. lia.
   - cbn [sval_ok] in Hok. destruct Hok as (Hv & _ & _).
-    eapply (value_avoids fmt_float FOK float_chars CFormat lazy v44 v t 58 Hv Hw).
+    eapply (value_avoids fmt_float FOK float_chars CFormat v44 v t 58 Hv Hw).
     cbn. right; right; reflexivity.
 Qed.
 
 Lemma column_aux : forall lazy v44 vs ds ps,
-  fits lazy v44 ds vs ->
+  fits v44 ds vs ->
   sequence (map (one_text v44) vs) = Some ps ->
   Forall (fun p => ~ In 58 p) ps /\
   sequence (zip_parse prs_float lazy ds ps) = Some (map (option_map (norm_value v44)) vs) /\
@@ -115,8 +115,8 @@ Proof. intros ds [|b t] H; [contradiction|reflexivity]. Qed.
 
 (* a whole sample column, either reader: every value of the sample comes back (the genotype
    with its first phasing normalised before 4.4); fewer values than FORMAT keys are allowed *)
-Theorem sample_column_roundtrip : forall lazy v44 ds vs s,
-  fits lazy v44 ds vs -> vs <> [] ->
+Theorem sample_column_roundtrip : forall (lazy : bool) v44 ds vs s,
+  fits v44 ds vs -> vs <> [] ->
   write_sample fmt_float v44 vs = Some s -> s <> [] -> s <> dot ->
   (if lazy then parse_sample_lazy prs_float ds s else parse_sample_eager prs_float ds s)
   = Some (map (option_map (norm_value v44)) vs).
@@ -124,9 +124,11 @@ Proof.
   intros lazy v44 ds vs s Hf Hne Hw Hs0 Hsd. unfold write_sample in Hw.
   change (fun o => match o with None => Some dot | Some v => write_value fmt_float CFormat v44 v end)
     with (one_text v44) in Hw.
-  destruct (sequence (map (one_text v44) vs)) as [ps|] eqn:Es; [|discriminate]. inversion Hw; subst s.
+  destruct (sequence (map (one_text v44) vs)) as [ps|] eqn:Es; [|discriminate].
   destruct (column_aux lazy v44 vs ds ps Hf Es) as (F1 & F2 & F3).
   assert (Hps : ps <> []) by (intro E; subst ps; destruct vs; [contradiction|discriminate]).
+  assert (Hs : s = join 58 ps) by (destruct ps; [contradiction|inversion Hw; reflexivity]).
+  clear Hw. subst s.
   assert (Hlen : (length ds <? length ps)%nat = false).
   { rewrite F3. apply Nat.ltb_ge. clear -Hf. revert ds Hf. induction vs as [|o vs IH]; intros ds Hf; [cbn; lia|].
     destruct ds as [|d ds]; [contradiction|]. destruct Hf as [_ Hf]. cbn [length]. specialize (IH ds Hf). lia. }
